@@ -151,3 +151,11 @@ Example C13_roundtrip_nonvacuous :
           (txt "lib_deps", c_nl :: txt "Servo" ++ c_nl :: txt "a b" ++ c_nl :: txt "x=y" ++ c_nl :: txt "[z]")])].
 Proof. vm_compute. repeat split; reflexivity. Qed.
 Print Assumptions C13_roundtrip_nonvacuous.
+
+(* a line break inside a value breaks the file (outside the property's "printable" quantifier;
+   shows that the no-line-break conjunct of the guard cannot be dropped) *)
+Theorem C13_line_break_refuted :
+  (exists port, no_padding port = true /\ ini_read (render w_avr w_uno port []) = None) /\
+  (exists lib, no_padding lib = true /\ ini_read (render w_avr w_uno w_com3 [lib]) = None).
+Proof. exact line_break_refuted. Qed.
+Print Assumptions C13_line_break_refuted.
